@@ -167,6 +167,51 @@ def file_sections(text):
     return out
 
 
+def split_sections(text):
+    """-> (title line, [(keyword, [lines])...] top-level sections in file order, [end lines]).  Same tracking as
+    file_sections: list sections and SHORT run to their blank line, the others to the next keyword record."""
+    lines = text.split('\n')
+    title, rest = lines[0], lines[1:]
+    chunks, tail = [], []
+    cur = None
+    mode = None          # None | 'short' | 'list'
+    for i, ln in enumerate(rest):
+        key = ln[:5]
+        if mode is not None:
+            cur[1].append(ln)
+            if not ln.strip():
+                mode = None
+            continue
+        if key in SECTION_KEYWORDS:
+            cur = (key, [ln])
+            chunks.append(cur)
+            if key == 'SHORT':
+                mode = 'short'
+            elif key in ('ROCKS', 'ELEME', 'CONNE', 'GENER', 'FOFT', 'COFT', 'GOFT', 'INCON', 'INDOM', 'MESHM'):
+                mode = 'list'
+        elif key in ('ENDCY', 'ENDFI'):
+            tail = rest[i:]
+            break
+        elif cur is not None:
+            cur[1].append(ln)
+    return title, chunks, tail
+
+
+def lift_sections(text, order):
+    """The same data file with the sections named in 'order' moved to the top, in that order (after SIMUL when
+    there is one: the reader needs the flavour before anything else).  Section order in a TOUGH2 data file is
+    free; the orders used keep ROCKS before ELEME before CONNE before the requests that name them."""
+    title, chunks, tail = split_sections(text)
+    head = [c for c in chunks if c[0] == 'SIMUL']
+    lifted = [c for k in order for c in chunks if c[0] == k]
+    others = [c for c in chunks if c[0] != 'SIMUL' and c[0] not in order]
+    out = [title]
+    for k, ls in head + lifted + others:
+        out.extend(ls)
+    out.extend(tail)
+    return '\n'.join(out)
+
+
 def file_section_body(text, keyword):
     """Lines of the first top-level section 'keyword' up to its blank line (list sections only)."""
     lines = text.split('\n')[1:]
